@@ -4,6 +4,26 @@ Model of the running / waiting query tables (C17), mirroring pkg/segment/query/q
   getNextWaitStateData + canRunQuery (one PullQueriesToRun iteration) / CancelQuery / DeleteQuery.
 Each StartQuery creates a fresh RunningQueryState object (identified by `obj`); its StateChan is a
 bounded buffer of capacity `chanCap` whose occupancy is tracked (a send on a full channel blocks).
+
+Lifecycle extension (querystatus.go, same file):
+  setupTimeoutCancelFunc (called by withLockRunQuery, i.e. AT ADMISSION, never by withLockInitializeQuery):
+    arms a one-shot timer goroutine for the qid; when it fires it looks the qid up in allRunningQueries and,
+    if present, sends TIMEOUT on the object's StateChan (no lock held) and then performs CancelQuery(qid).
+    `timeoutArmed` = the object's timeoutCancelFunc is set; `timerLive` = that goroutine has neither fired
+    nor been stopped.  Timer goroutines are modelled per running object: a timer that outlives its object
+    (cancelled, then deleted: withLockDeleteQuery calls timeoutCancelFunc only for un-cancelled objects) could
+    reach a later object only if the qid were re-used, which rutils.GetNextQid excludes.
+  StartQueryAsCoordinator (op `startc`): StartQuery plus isCoordinator.
+  (*RunningQueryState).RestartQuery(forceRun) (op `restart q nq force`, `nq` = the qid rutils.GetNextQid hands
+    out): holds the OLD object's rqsLock for the whole call; cancelled → error, nothing changes; else
+    arqMapLock.Lock, withLockDeleteQuery (takes NO further lock: timeoutCancelFunc(), cleanupCallback, delete
+    from the map), arqMapLock.Unlock; not a coordinator → error (the entry is gone); else
+    StartQueryAsCoordinator(nq, …, the OLD object's StateChan, forceRun): the new object shares the channel
+    (its occupancy carries over; messages are tagged with the qid, so `sent` starts empty).
+  SendQueryStateComplete (op `complete`) / the ERROR send of segexecution.go (op `error`): one send by the
+    query goroutine, no table lock held; on a full channel that goroutine just waits (modelled as no-op).
+  canRunQuery: `GetActiveQueryCount() < MAX_RUNNING_QUERIES` where GetActiveQueryCount = len(allRunningQueries):
+    EVERY entry of the running table counts, cancelled-but-not-yet-deleted ones included (op `pull`).
 Core Lean only.
 -/
 namespace SigModel.QTable
@@ -18,7 +38,10 @@ structure RQ where
   qid : Nat
   cancelled : Bool := false
   chanLen : Nat := 0   -- messages sitting in StateChan
-  sent : List Nat := []  -- state names sent so far (1 READY 2 RUNNING 5 CANCELLED)
+  sent : List Nat := []  -- state names sent so far for this qid (1 READY 2 RUNNING 4 COMPLETE 5 CANCELLED 6 TIMEOUT 7 ERROR)
+  coord : Bool := false         -- isCoordinator
+  timeoutArmed : Bool := false  -- timeoutCancelFunc is set (done by withLockRunQuery at the admission instant)
+  timerLive : Bool := false     -- the timer goroutine of this admission has neither fired nor been stopped
 deriving Repr, DecidableEq
 
 structure St where
@@ -44,11 +67,14 @@ def send (r : RQ) (msg : Nat) : RQ × Bool :=
   if r.chanLen < chanCap then ({ r with chanLen := r.chanLen + 1, sent := r.sent ++ [msg] }, false)
   else (r, true)
 
+/-- `rQuery.timeoutCancelFunc = setupTimeoutCancelFunc(qid)`: the timer of this admission starts -/
+def arm (r : RQ) : RQ := { r with timeoutArmed := true, timerLive := true }
+
 /-- `withLockRunQuery` -/
 def runQuery (s : St) (r : RQ) : St :=
   if r.cancelled then s
   else
-    let (r1, b1) := send r 1
+    let (r1, b1) := send (arm r) 1
     let (r2, b2) := send r1 2
     { s with running := put r.qid r2 s.running, blocked := s.blocked || b1 || b2 }
 
@@ -58,7 +84,21 @@ inductive Op where
   | cancel (qid : Nat)
   | delete (qid : Nat)
   | drain (qid : Nat)      -- the consumer empties the running object's channel
+  | startc (qid : Nat) (force : Bool)                 -- StartQueryAsCoordinator (fresh StateChan)
+  | timeout (qid : Nat)                               -- the timer goroutine armed for `qid` fires
+  | restart (qid : Nat) (newQid : Nat) (force : Bool) -- RestartQuery(force) on the running object of `qid`
+  | complete (qid : Nat)                              -- SendQueryStateComplete by the query goroutine
+  | error (qid : Nat)                                 -- the query goroutine reports ERROR
 deriving Repr, DecidableEq
+
+/-- forced starts bypass `canRunQuery` (a forced `restart` replaces an entry of the running table and
+does not enlarge it) -/
+def Op.forced : Op → Bool
+  | .start _ f => f | .startc _ f => f | _ => false
+
+/-- operations whose only sends are READY/RUNNING of a FRESH channel at admission -/
+def Op.admissionOnly : Op → Bool
+  | .start _ _ => true | .startc _ _ => true | .pull => true | .delete _ => true | .drain _ => true | _ => false
 
 inductive Out where
   | ok | rejected | noop
@@ -68,35 +108,80 @@ def removeFirstWaiting (q : Nat) : List RQ → List RQ
   | [] => []
   | r :: rs => if r.qid = q then rs else r :: removeFirstWaiting q rs
 
+/-- `CancelQuery(q)` -/
+def cancelQuery (s : St) (q : Nat) : St × Out :=
+  match lookup q s.running with
+  | none =>
+    -- not running: it may be waiting for admission (`removeFromWaitingQueries`, fix 015df40);
+    -- then it leaves the queue, is marked cancelled and CANCELLED is sent on its channel
+    match s.waiting.find? (fun r => r.qid == q) with
+    | none => (s, .noop)
+    | some r =>
+      let (_, b) := send { r with cancelled := true } 5
+      ({ s with waiting := removeFirstWaiting q s.waiting, blocked := s.blocked || b }, .ok)
+  | some r =>
+    let (r1, b) := send { r with cancelled := true } 5
+    ({ s with running := put q r1 s.running, waiting := removeFirstWaiting q s.waiting, blocked := s.blocked || b }, .ok)
+
+/-- `StartQuery` / `StartQueryAsCoordinator` with a fresh channel -/
+def startQuery (s : St) (q : Nat) (force coord : Bool) : St × Out :=
+  match lookup q s.running with
+  | some _ => (s, .rejected)                     -- "qid already exists"
+  | none =>
+    let r : RQ := { obj := s.next, qid := q, coord := coord }
+    let s1 := { s with next := s.next + 1 }
+    if force then (runQuery s1 r, .ok)
+    else if s1.waiting.length ≥ maxWaiting then (s1, .rejected)
+    else ({ s1 with waiting := s1.waiting ++ [r] }, .ok)
+
+/-- one send by the query goroutine itself (COMPLETE = 4, ERROR = 7); no table lock is held -/
+def selfSend (s : St) (q msg : Nat) : St × Out :=
+  match lookup q s.running with
+  | none => (s, .noop)
+  | some r =>
+    if r.chanLen < chanCap then ({ s with running := put q (send r msg).1 s.running }, .ok)
+    else (s, .noop)
+
+/-- the timer goroutine armed by `setupTimeoutCancelFunc` for `q` fires -/
+def fireTimeout (s : St) (q : Nat) : St × Out :=
+  match lookup q s.running with
+  | none => (s, .noop)                           -- the goroutine finds no entry and ends
+  | some r =>
+    if !r.timerLive then (s, .noop)              -- no pending timer for this admission
+    else if r.chanLen < chanCap then
+      -- TIMEOUT is sent without any lock, then CancelQuery(q)
+      let r1 := (send { r with timerLive := false } 6).1
+      cancelQuery { s with running := put q r1 s.running } q
+    else (s, .noop)                              -- the goroutine waits on its own send; nothing else is held up
+
+/-- `RestartQuery(force)` on the running object of `q`; `nq` is the qid handed out by `GetNextQid` -/
+def restartQuery (s : St) (q nq : Nat) (force : Bool) : St × Out :=
+  match lookup q s.running with
+  | none => (s, .noop)                           -- only running queries receive QUERY_RESTART
+  | some r =>
+    if r.cancelled then (s, .rejected)           -- "query is cancelled"
+    else
+      let s1 := { s with running := erase q s.running }   -- withLockDeleteQuery (stops the timer)
+      if !r.coord then (s1, .rejected)           -- "query is not a coordinator" (after the delete)
+      else
+        match lookup nq s1.running with
+        | some _ => (s1, .rejected)              -- withLockInitializeQuery: "qid already exists"
+        | none =>
+          let n : RQ := { obj := s1.next, qid := nq, coord := true, chanLen := r.chanLen }
+          let s2 := { s1 with next := s1.next + 1 }
+          if force then (runQuery s2 n, .ok)
+          else if s2.waiting.length ≥ maxWaiting then (s2, .rejected)
+          else ({ s2 with waiting := s2.waiting ++ [n] }, .ok)
+
 def step (s : St) : Op → St × Out
-  | .start q force =>
-    match lookup q s.running with
-    | some _ => (s, .rejected)                     -- "qid already exists"
-    | none =>
-      let r : RQ := { obj := s.next, qid := q }
-      let s1 := { s with next := s.next + 1 }
-      if force then (runQuery s1 r, .ok)
-      else if s1.waiting.length ≥ maxWaiting then (s1, .rejected)
-      else ({ s1 with waiting := s1.waiting ++ [r] }, .ok)
+  | .start q force => startQuery s q force false
   | .pull =>
     if s.running.length < s.maxRunning then
       match s.waiting with
       | [] => (s, .noop)
       | r :: rs => (runQuery { s with waiting := rs } r, .ok)
     else (s, .noop)
-  | .cancel q =>
-    match lookup q s.running with
-    | none =>
-      -- not running: it may be waiting for admission (`removeFromWaitingQueries`, fix 015df40);
-      -- then it leaves the queue, is marked cancelled and CANCELLED is sent on its channel
-      match s.waiting.find? (fun r => r.qid == q) with
-      | none => (s, .noop)
-      | some r =>
-        let (_, b) := send { r with cancelled := true } 5
-        ({ s with waiting := removeFirstWaiting q s.waiting, blocked := s.blocked || b }, .ok)
-    | some r =>
-      let (r1, b) := send { r with cancelled := true } 5
-      ({ s with running := put q r1 s.running, waiting := removeFirstWaiting q s.waiting, blocked := s.blocked || b }, .ok)
+  | .cancel q => cancelQuery s q
   | .delete q =>
     match lookup q s.running with
     | none => (s, .noop)
@@ -105,6 +190,18 @@ def step (s : St) : Op → St × Out
     match lookup q s.running with
     | none => (s, .noop)
     | some r => ({ s with running := put q { r with chanLen := 0 } s.running }, .ok)
+  | .startc q force => startQuery s q force true
+  | .timeout q => fireTimeout s q
+  | .restart q nq force => restartQuery s q nq force
+  | .complete q => selfSend s q 4
+  | .error q => selfSend s q 7
+
+/-- terminal state names: COMPLETE 4, CANCELLED 5, TIMEOUT 6, ERROR 7 -/
+def isTerminal (m : Nat) : Bool := m == 4 || m == 5 || m == 6 || m == 7
+
+/-- the terminal state of a query object = the first terminal state name sent on its channel (the consumer
+loop of RunQueryForNewPipeline returns on the first one it reads) -/
+def terminalOf (r : RQ) : Option Nat := r.sent.find? isTerminal
 
 def run (s : St) : List Op → St
   | [] => s
